@@ -83,6 +83,58 @@ namespace hs
                                              { ++handlers().badsize_calls; });
     }
 
+    // every run starts by taking the harness's handlers off and putting them on again: set_X_handler(nullptr) must
+    // restore the library's default (not keep the one that was uninstalled) and return the one that was installed
+    void check_handler_registration()
+    {
+        {
+            auto mine = fm::get_buffer_overflow_handler();
+            auto prev = fm::set_buffer_overflow_handler(nullptr);
+            auto now  = fm::get_buffer_overflow_handler();
+            fm::set_buffer_overflow_handler(mine);
+            if (prev != mine || now == mine || !now)
+                violate("C17", "handler_registration", "set_buffer_overflow_handler(nullptr) %s",
+                        prev != mine ? "did not return the installed handler" :
+                                       "did not restore the default handler");
+        }
+        {
+            auto mine = fm::get_invalid_pointer_handler();
+            auto prev = fm::set_invalid_pointer_handler(nullptr);
+            auto now  = fm::get_invalid_pointer_handler();
+            fm::set_invalid_pointer_handler(mine);
+            if (prev != mine || now == mine || !now)
+                violate("C16", "handler_registration", "set_invalid_pointer_handler(nullptr) did not restore the "
+                                                       "default handler or did not return the installed one");
+        }
+        {
+            auto mine = fm::get_leak_handler();
+            auto prev = fm::set_leak_handler(nullptr);
+            auto now  = fm::get_leak_handler();
+            fm::set_leak_handler(mine);
+            if (prev != mine || now == mine || !now)
+                violate("C15", "handler_registration", "set_leak_handler(nullptr) did not restore the default "
+                                                       "handler or did not return the installed one");
+        }
+        {
+            auto mine = fm::out_of_memory::get_handler();
+            auto prev = fm::out_of_memory::set_handler(nullptr);
+            auto now  = fm::out_of_memory::get_handler();
+            fm::out_of_memory::set_handler(mine);
+            if (prev != mine || now == mine || !now)
+                violate("C03", "handler_registration", "out_of_memory::set_handler(nullptr) did not restore the "
+                                                       "default handler or did not return the installed one");
+        }
+        {
+            auto mine = fm::bad_allocation_size::get_handler();
+            auto prev = fm::bad_allocation_size::set_handler(nullptr);
+            auto now  = fm::bad_allocation_size::get_handler();
+            fm::bad_allocation_size::set_handler(mine);
+            if (prev != mine || now == mine || !now)
+                violate("C03", "handler_registration", "bad_allocation_size::set_handler(nullptr) did not restore "
+                                                       "the default handler or did not return the installed one");
+        }
+    }
+
     Failure classify_current_exception()
     {
         Failure f;
@@ -146,6 +198,7 @@ namespace hs
                    (std::uint64_t)p.num("hseed", 1));
         try
         {
+            check_handler_registration();
             op_make(0);
             for (std::size_t i = 0; i < p.ops.size(); ++i)
             {
@@ -905,6 +958,19 @@ namespace hs
         if (have_caps && !fired)
         {
             auto cap1 = S.o->reading(0);
+            if (c.kind == K_POOL && S.o->owner >= OWNER_FIRST)
+            {
+                // what a pool calls free cannot be more than what it holds (minus what is handed out)
+                std::size_t held = 0, out = 0;
+                for (auto& b : heap.blocks_of(S.o->owner))
+                    held += b.second;
+                shadow_.for_each([&](Alloc& x) { out += x.obj == idx ? x.bytes : 0; });
+                if (held && cap1 + out > held)
+                    violate("C18,C01,C04", "capacity_exceeds_memory",
+                            "capacity_left() is %zu with %zu bytes handed out, the pool holds %zu bytes of upstream "
+                            "memory",
+                            cap1, out, held);
+            }
             if (c.kind == K_POOL)
             {
                 auto ns    = S.o->reading(4);
@@ -991,6 +1057,17 @@ namespace hs
                         sanitize(*S, int(op.arg(1)), false, 1, op.arg(2), op.arg(3));
         // an optional last argument asks for a node exactly at the documented limit (pools: the node size,
         // collections: max_node_size())
+        if (array && op.arg(5) == 1 && S->o->caps.kind == K_POOL && S->o->caps.array)
+        {
+            // an array exactly as large as max_array_size() allows (the whole of the next block)
+            auto unit = r.fam == MEMBER ? S->o->reading(4) : r.size;
+            auto lim  = S->o->max_array() / (unit ? unit : 1);
+            if (lim >= 1 && lim <= 100000)
+            {
+                r.count = lim;
+                stats().hit("reach.array_exactly_at_max_array_size");
+            }
+        }
         if (!array && op.arg(4) == 1)
         {
             auto kind = S->o->caps.kind;
